@@ -1,1 +1,139 @@
-fn main() {}
+//! C17 executor.  `spawn T K`: T threads start together (barrier); each creates K treap nodes and
+//! records their priorities, then runs a treap program on a treap it owns.  Afterwards ONE fresh
+//! thread creates T*K nodes (the stream a single thread sees) and every program is re-run alone.
+//! Output: `S <solo...> ; L <thread 0 ...> ; L <thread 1 ...> ; ... ; E <0|1>`.
+use rlib_treap::{Treap, TreapItem, TreapItemSized, TreapNode};
+use std::sync::{Arc, Barrier};
+
+#[derive(Clone, Debug)]
+struct It {
+    v: i64,
+    size: usize,
+    sum: i64,
+}
+impl It {
+    fn new(v: i64) -> Self {
+        It { v, size: 1, sum: v }
+    }
+}
+impl TreapItem for It {
+    fn update(&mut self, l: Option<&Self>, r: Option<&Self>) {
+        self.size = 1 + l.map_or(0, |x| x.size) + r.map_or(0, |x| x.size);
+        self.sum = self.v + l.map_or(0, |x| x.sum) + r.map_or(0, |x| x.sum);
+    }
+}
+impl TreapItemSized for It {
+    fn size(&self) -> usize {
+        self.size
+    }
+}
+
+/// a deterministic treap program: results must not depend on the priorities drawn
+fn program(tid: usize, k: usize) -> Vec<i64> {
+    let mut t: Treap<It> = Treap::new();
+    let mut out = Vec::new();
+    for i in 0..k {
+        let pos = (i * 7 + tid * 3) % (i + 1);
+        t.insert_at(pos, It::new((i as i64) * 10 + tid as i64));
+    }
+    out.push(t.size() as i64);
+    out.push(t.root().map_or(0, |r| r.sum));
+    let mut n = k;
+    for j in 0..k / 3 {
+        let pos = (j * 5 + tid) % n;
+        out.push(t.remove_at(pos).v);
+        n -= 1;
+    }
+    let (a, b) = t.split_at(n / 2);
+    let mut a = a;
+    let mut b = b;
+    out.push(a.size() as i64);
+    out.extend(b.collect().iter().map(|x| x.v));
+    out.extend(a.collect().iter().map(|x| x.v));
+    out
+}
+
+fn draws(k: usize) -> Vec<u32> {
+    (0..k).map(|i| TreapNode::new(i).priority).collect()
+}
+
+fn fmt_u32(v: &[u32]) -> String {
+    v.iter().map(|x| x.to_string()).collect::<Vec<_>>().join(" ")
+}
+
+/// Every measurement runs in a FRESH child process, so that a process-wide generator (if the code
+/// under test has one) starts from its initial state each time, exactly like a thread-local one.
+fn child(args: &[String]) -> String {
+    let out = std::process::Command::new(std::env::current_exe().unwrap()).args(args).output().unwrap();
+    if !out.status.success() {
+        panic!("child failed");
+    }
+    String::from_utf8(out.stdout).unwrap().trim().to_string()
+}
+
+fn main() {
+    let argv: Vec<String> = std::env::args().skip(1).collect();
+    if !argv.is_empty() {
+        let nt: usize = vh::p(&argv[1]);
+        let k: usize = vh::p(&argv[2]);
+        match argv[0].as_str() {
+            // T threads started on a barrier: K draws each, then the treap program
+            "conc" => {
+                let barrier = Arc::new(Barrier::new(nt));
+                let hs: Vec<_> = (0..nt)
+                    .map(|tid| {
+                        let b = barrier.clone();
+                        std::thread::spawn(move || {
+                            b.wait();
+                            let d = draws(k);
+                            // all recorded draws happen before any program draws (a shared generator
+                            // would otherwise interleave them and the first T*K draws would not be ours)
+                            b.wait();
+                            let r = program(tid, k.min(60));
+                            (d, r)
+                        })
+                    })
+                    .collect();
+                for h in hs {
+                    let (d, r) = h.join().unwrap();
+                    println!("L {} # {}", fmt_u32(&d), r.iter().map(|x| x.to_string()).collect::<Vec<_>>().join(" "));
+                }
+            }
+            // one thread alone: T*K draws
+            "solo" => println!("{}", fmt_u32(&std::thread::spawn(move || draws(nt * k)).join().unwrap())),
+            // every treap program alone, one after the other (each after K draws, like in `conc`)
+            "progs" => {
+                for tid in 0..nt {
+                    let r = std::thread::spawn(move || {
+                        let _ = draws(k);
+                        program(tid, k.min(60))
+                    })
+                    .join()
+                    .unwrap();
+                    println!("{}", r.iter().map(|x| x.to_string()).collect::<Vec<_>>().join(" "));
+                }
+            }
+            _ => std::process::exit(3),
+        }
+        return;
+    }
+    vh::serve(|t| match t[0] {
+        "spawn" => {
+            let a = vec![t[1].to_string(), t[2].to_string()];
+            let conc = child(&[vec!["conc".to_string()], a.clone()].concat());
+            let solo = child(&[vec!["solo".to_string()], a.clone()].concat());
+            let progs = child(&[vec!["progs".to_string()], a.clone()].concat());
+            let alone: Vec<&str> = progs.lines().map(|l| l.trim()).collect();
+            let mut s = format!("S {}", solo);
+            let mut eq = true;
+            for (i, line) in conc.lines().enumerate() {
+                let (d, r) = line[2..].split_once(" # ").unwrap_or((&line[2..], ""));
+                s += &format!(" ; L {}", d.trim());
+                eq &= alone.get(i).map_or(false, |x| *x == r.trim());
+            }
+            s += &format!(" ; E {}", eq as u8);
+            s
+        }
+        _ => panic!("unknown op"),
+    });
+}
